@@ -159,6 +159,36 @@ theorem stable_moves {j0 : JobObj} {s : Sys} {a : Action} (hb : Base j0 s) (h2 :
         intro p hp
         exact this p (hf.podCache ▸ hp)
       exact stable_sync ctx (hf.d ▸ hwf) hjo hg ⟨hv.rs, hv.noKill, hv.noAdm, hf.d ▸ hv.coh⟩ hfin hwf3.tmpl hjd hnu k hk'
+    | ctlStatusOn jo sp rv0 rv ha hc hf _ =>
+      cases hy
+      intro hd
+      have hjd : jo.job.deletionTimestamp = none := hd
+      obtain ⟨hjd0, hkeys0⟩ := ih hsrc _ rfl hjd
+      -- the object `Update` produced carries the status of the cached Job
+      have hkeys : ∀ k, finKey j.job.status.condition = some k → finKey jo.job.status.condition = some k := hkeys0
+      refine ⟨hjd0, ?_⟩
+      intro k hk
+      have hk' := hkeys k hk
+      -- the invariants at the start of the pass
+      have hseen := mem_seenVers_cache hc
+      have hjo := (hb.seenOK jo hseen).1
+      have hall : jo ∈ allVers s := List.mem_append_right _ hseen
+      have hv := h3'.ver jo hall
+      have h2sp := h2.frame hf
+      have hcsp : sp.jobCache = some jo := hf.jobCache.trans hc
+      have hg : Good j0 sp.d jo.job := h2sp.seen jo (mem_seenVers_cache hcsp)
+      have ctx : PassCtx j0 sp := ⟨h2sp.pods, ho.frame hf, by rw [hf.pods]; exact hb.podsNodup, by
+        intro c hcm hfin
+        rw [hf.pods]
+        exact h3'.lin c (Or.inl (hf.podCache ▸ hcm)) hfin⟩
+      have hfin : ∀ r ∈ jo.job.status.tasks, r.finishTimestamp.isSome = true → PodFinIn sp.pods r.name := by
+        intro r hr hfn; rw [hf.pods]; exact h3'.fin jo hall r hr hfn
+      have hnu : NoUnrec sp jo := by
+        obtain ⟨f, hff, _⟩ := finKey_some hk'
+        have := henv.2 ha jo hc (by rw [hff]; rfl)
+        intro p hp
+        exact this p (hf.podCache ▸ hp)
+      exact stable_sync ctx (hf.d ▸ hwf) hjo hg ⟨hv.rs, hv.noKill, hv.noAdm, hf.d ▸ hv.coh⟩ hfin hwf3.tmpl hjd hnu k hk'
 
 /-- one step inside the envelope: a non-deleted Job that is `Finished` with result / finish time `k`
 is, after the step (if the object still exists and is not being deleted), `Finished` with the same `k` -/
